@@ -346,10 +346,17 @@ Section Preserve.
       destruct ((ui <=? u) && is_inv v); [apply tf_bind_var; exact Hv | apply tf_push_outlives].
     Qed.
 
+    Lemma tf_unless_unioned x y (k : M unit) : tfu k -> tfu (unless_unioned x y k).
+    Proof.
+      intros Hk. unfold unless_unioned. eapply tf_bind; [apply tf_get_cell_ok |]. intros ca _.
+      eapply tf_bind; [apply tf_get_cell_ok |]. intros cb _. destruct (ccls ca =? ccls cb); [apply tf_ret; exact I | exact Hk].
+    Qed.
+
     Lemma tf_rel_lt_norm v a b : sfrag a = true -> sfrag b = true -> tfu (rel_lt_norm v a b).
     Proof.
       intros Ha Hb. unfold rel_lt_norm.
       destruct (lcls_of a), (lcls_of b); try (apply tf_fail; discriminate); try (apply tf_ret; exact I);
+        try (destruct (is_inv v); [apply tf_union_vars | apply tf_unless_unioned; apply tf_push_outlives]);
         try apply tf_union_vars; try (apply tf_unify_lifetime_var; assumption);
         try (destruct (tm_eqb a b); [apply tf_ret; exact I | apply tf_push_outlives]).
     Qed.
@@ -532,10 +539,21 @@ Section MirrorRec.
     apply mirror_rel_ty_norm; try apply shallow_ty_sfrag; assumption.
   Qed.
 
+  Lemma is_inv_invert v : is_inv (invert v) = is_inv v.
+  Proof. destruct v; reflexivity. Qed.
+
+  Lemma mirror_unless_unioned x y (k k' : M unit) : mirror k k' -> mirror (unless_unioned x y k) (unless_unioned y x k').
+  Proof.
+    intros Hk t Ht. unfold unless_unioned. rewrite !bind_get_cell.
+    destruct (get t x) as [cx |] eqn:X, (get t y) as [cy |] eqn:Y; rewrite ?bind_get_cell, ?X, ?Y; cbn [fst snd]; auto.
+    rewrite (N.eqb_sym (ccls cy) (ccls cx)). destruct (ccls cx =? ccls cy); [cbn [fst snd]; auto | apply Hk; exact Ht].
+  Qed.
+
   Lemma mirror_rel_lt_norm v a b : mirror (rel_lt_norm v a b) (rel_lt_norm (invert v) b a).
   Proof.
     unfold rel_lt_norm. rewrite (tm_eqb_sym b a).
-    destruct (lcls_of a), (lcls_of b); cbv iota; rewrite ?invert_involutive_lemma; try apply mirror_refl;
+    destruct (lcls_of a), (lcls_of b); cbv iota; rewrite ?invert_involutive_lemma, ?is_inv_invert; try apply mirror_refl;
+      try (destruct (is_inv v); [apply mirror_eq; intros t; apply union_vars_comm | apply mirror_unless_unioned; apply push_outlives_mirror]);
       try (apply mirror_eq; intros t; apply union_vars_comm);
       try (destruct (tm_eqb a b); [apply mirror_refl | apply push_outlives_mirror]).
   Qed.
